@@ -1,5 +1,6 @@
 (* C13 — proofs about the model in C13_Model.v *)
 Require Import V.Lib V.GoPath V.C13_Model.
+Require V.Gen_C20 V.C19_Model V.C20_Model V.C20_Proofs.
 From Coq Require Import Permutation ZifyBool ZifyN ZifyNat.
 Open Scope list_scope.
 Open Scope N_scope.
@@ -915,6 +916,149 @@ Proof.
   rewrite (Hoe He), app_nil_r in Ho. rewrite (Hre He), app_nil_r in Hr. auto.
 Qed.
 
+(* ---- progress of the reader: Read returns (0, nil) only on an empty output record ---- *)
+Lemma filter_empty_out_stderr errs :
+  forallb (fun r => rtype r =? T_STDERR) errs = true -> filter empty_out errs = [].
+Proof.
+  induction errs as [|r errs IH]; intros H; [reflexivity|].
+  cbn [forallb] in H. apply andb_true_iff in H as [Hr H].
+  cbn [filter]. unfold empty_out at 1. unfold rtype in Hr. rewrite Hr. cbn [negb andb]. apply IH; exact H.
+Qed.
+
+Lemma firstn_nil_inv {A} m (l : list A) : (1 <= m)%nat -> firstn m l = [] -> l = [].
+Proof. destruct m; [lia|]. destruct l; [reflexivity|discriminate]. Qed.
+
+Lemma sr_reads_stalls sizes : forall recs tail b se t,
+  Forall valid_rec recs ->
+  sr_reads (mk_sr (wire_of recs ++ enc_rec end_rec ++ tail) b se) sizes = Ok t ->
+  (stalls t <= length (filter empty_out recs))%nat.
+Proof.
+  induction sizes as [|m sizes IH]; intros recs tail b se t Hv H.
+  - cbn [sr_reads] in H. injection H as <-. cbn. lia.
+  - cbn [sr_reads] in H. unfold sr_read in H.
+    destruct m as [|m'].
+    + cbn [rbind] in H.
+      destruct (sr_reads (mk_sr (wire_of recs ++ enc_rec end_rec ++ tail) b se) sizes) as [t'|] eqn:Et; [|discriminate].
+      cbn [rbind] in H. injection H as <-.
+      apply IH in Et; [|exact Hv]. unfold stalls in *. cbn [filter empty_read Nat.eqb negb andb]. exact Et.
+    + set (m := S m') in *. cbn [mk_sr s_buf s_conn s_stderr] in H.
+      destruct b as [|x b'].
+      * destruct (split_first_out recs) as [Hall | (errs & r & rest & -> & Hall & Hr)].
+        -- destruct (next_out_all_stderr recs (S (length (wire_of recs ++ enc_rec end_rec ++ tail))) tail se Hv Hall) as [rest' Hn].
+           { rewrite app_length. pose proof (wire_of_len recs). lia. }
+           rewrite Hn in H. cbn [rbind] in H. injection H as <-.
+           unfold stalls, m. cbn [filter empty_read length Nat.eqb negb andb]. lia.
+        -- apply Forall_app in Hv as [Hve Hvr]. inversion Hvr as [|? ? Hvr1 Hvr2]; subst.
+           rewrite (next_out_found errs _ r rest (enc_rec end_rec ++ tail) se Hve Hall Hvr1 Hr) in H.
+           2:{ rewrite app_length. pose proof (wire_of_len (errs ++ r :: rest)). rewrite app_length in *. simpl length in *. lia. }
+           cbn [rbind] in H.
+           change ({| s_conn := wire_of rest ++ enc_rec end_rec ++ tail; s_buf := skipn m (rcontent r);
+                      s_stderr := rev (map rcontent errs) ++ se |})
+             with (mk_sr (wire_of rest ++ enc_rec end_rec ++ tail) (skipn m (rcontent r)) (rev (map rcontent errs) ++ se)) in H.
+           destruct (sr_reads _ sizes) as [t'|] eqn:Et; [|discriminate].
+           cbn [rbind] in H. injection H as <-.
+           apply IH in Et; [|exact Hvr2].
+           rewrite filter_app, (filter_empty_out_stderr errs Hall). cbn [app filter].
+           match goal with |- (stalls (?x0 :: _) <= _)%nat => set (x := x0) end.
+           assert (Hx : stalls (x :: t') = ((if empty_read x then 1 else 0) + stalls t')%nat).
+           { unfold stalls. cbn [filter]. destruct (empty_read x); reflexivity. }
+           rewrite Hx. clear Hx.
+           assert (Hy : length (if empty_out r then r :: filter empty_out rest else filter empty_out rest)
+                        = ((if empty_out r then 1 else 0) + length (filter empty_out rest))%nat).
+           { destruct (empty_out r); reflexivity. }
+           rewrite Hy. clear Hy. unfold stalls in *.
+           destruct (empty_read x) eqn:Ee.
+           ++ assert (Hc : rcontent r = []).
+              { unfold x, empty_read, m in Ee. destruct (rcontent r); [reflexivity|].
+                cbn in Ee. discriminate Ee. }
+              assert (empty_out r = true) as ->.
+              { unfold empty_out. unfold rtype in Hr. rewrite Hr. unfold rcontent in Hc. rewrite Hc. reflexivity. }
+              lia.
+           ++ destruct (empty_out r); lia.
+      * cbn [rbind] in H.
+        change ({| s_conn := wire_of recs ++ enc_rec end_rec ++ tail; s_buf := skipn m (x :: b'); s_stderr := se |})
+          with (mk_sr (wire_of recs ++ enc_rec end_rec ++ tail) (skipn m (x :: b')) se) in H.
+        destruct (sr_reads _ sizes) as [t'|] eqn:Et; [|discriminate].
+        cbn [rbind] in H. injection H as <-.
+        apply IH in Et; [|exact Hv].
+        match goal with |- (stalls (?x0 :: _) <= _)%nat => set (y := x0) end.
+        assert (Hy : empty_read y = false) by (unfold y, m; reflexivity).
+        unfold stalls in *. cbn [filter]. rewrite Hy. exact Et.
+Qed.
+
+Lemma stall_run_le t : forall cur best, (stall_run t cur best <= Nat.max (cur + stalls t) best)%nat.
+Proof.
+  induction t as [|x t IH]; intros cur best.
+  - cbn [stall_run]. unfold stalls. cbn. lia.
+  - cbn [stall_run]. unfold stalls in *. cbn [filter].
+    destruct (empty_read x).
+    + specialize (IH (S cur) best). cbn [length]. lia.
+    + destruct (Nat.eqb (fst (fst x)) 0).
+      * apply IH.
+      * specialize (IH 0%nat (Nat.max cur best)). lia.
+Qed.
+
+(* For EVERY framing (valid records, any interleaving and run lengths of stderr records, empty
+   stderr records included), EVERY sequence of caller buffers: the number of reads that return
+   (0, nil) is bounded by the number of empty OUTPUT records the responder sent; a responder that
+   sends fewer than 100 of them (a conforming one sends one) never exhausts bufio's budget. *)
+Lemma reader_progress recs tail sizes t :
+  Forall valid_rec recs ->
+  sr_reads (sr_init (wire_of recs ++ enc_rec end_rec ++ tail)) sizes = Ok t ->
+  (stalls t <= length (filter empty_out recs))%nat /\
+  (max_stall_run t <= length (filter empty_out recs))%nat /\
+  ((length (filter empty_out recs) < BUFIO_EMPTY_READS)%nat -> bufio_ok t = true).
+Proof.
+  intros Hv H. change (sr_init ?c) with (mk_sr c [] []) in H.
+  apply sr_reads_stalls in H; [|exact Hv].
+  assert (Hm : (max_stall_run t <= length (filter empty_out recs))%nat).
+  { unfold max_stall_run. pose proof (stall_run_le t 0 0). lia. }
+  split; [exact H|]. split; [exact Hm|].
+  intros Hlt. unfold bufio_ok. apply Nat.ltb_lt. lia.
+Qed.
+
+Lemma concat_rev_cons_len (d : bytes) acc :
+  length (concat (rev (d :: acc))) = (length (concat (rev acc)) + length d)%nat.
+Proof. cbn [rev]. rewrite concat_app, app_length. cbn [concat]. rewrite app_nil_r. reflexivity. Qed.
+
+(* the bound is tight: Read does return (0, nil) on every empty output record, so a (non-conforming)
+   responder that sends 100 of them in a row before its header block exhausts bufio's budget *)
+Lemma reader_progress_tight :
+  exists recs sizes t,
+    Forall valid_rec recs /\ length (filter empty_out recs) = BUFIO_EMPTY_READS /\
+    sr_reads (sr_init (wire_of recs ++ enc_rec end_rec)) sizes = Ok t /\ bufio_ok t = false.
+Proof.
+  exists (repeat (6, [], 0) 100 ++ [(6, bs "Status: 200", 0)]), (repeat 4096%nat 102).
+  eexists. split; [|split; [|split]].
+  - apply Forall_app. split; [apply Forall_forall; intros x Hx; apply repeat_spec in Hx; subst x|repeat constructor];
+      vm_compute; repeat split; congruence.
+  - vm_compute. reflexivity.
+  - vm_compute. reflexivity.
+  - vm_compute. reflexivity.
+Qed.
+
+(* the per-call view and the accumulated view are the same reads *)
+Lemma sr_reads_all sizes : forall s acc,
+  exists t, sr_reads s sizes = Ok t /\
+  match sr_read_all s sizes acc with
+  | Ok (d, e, _) => (length d = length (concat (rev acc)) + fold_right (fun x a => snd (fst x) + a) 0 t)%nat /\
+                    (match e with None => True | Some _ => exists m n, last t (0, 0, None)%nat = (m, n, e) end)
+  | Panic => False
+  end.
+Proof.
+  induction sizes as [|m sizes IH]; intros s acc.
+  - exists []. split; [reflexivity|]. cbn. split; [lia|exact I].
+  - cbn [sr_reads sr_read_all]. destruct (sr_read_no_panic s m) as [[[d e] s'] ->]. cbn [rbind].
+    destruct e as [err|].
+    + eexists. split; [reflexivity|]. rewrite concat_rev_cons_len. cbn [fold_right fst snd last]. split; [lia|eauto].
+    + destruct (IH s' (d :: acc)) as (t & Ht & Hall). rewrite Ht. cbn [rbind].
+      eexists. split; [reflexivity|].
+      destruct (sr_read_all s' sizes (d :: acc)) as [[[d' e'] s'']|]; [|contradiction].
+      destruct Hall as [Hl He]. rewrite concat_rev_cons_len in Hl. cbn [fold_right fst snd]. split; [lia|].
+      destruct e'; [|exact I]. destruct He as (m' & n' & He). exists m', n'.
+      destruct t; [cbn in He; discriminate He|]. exact He.
+Qed.
+
 (* ---- buildEnv: every header arrives as HTTP_*, configured entries arrive ---- *)
 Lemma find_app {A} (f : A -> bool) a b :
   find f (a ++ b) = match find f a with Some x => Some x | None => find f b end.
@@ -968,13 +1112,59 @@ Proof.
     cbn [In]; intros H; repeat (destruct H as [<-|H]; [vm_compute; reflexivity|]); contradiction.
 Qed.
 
+(* ---- the configured entries: Replace with "" as the empty value ---- *)
+Definition cfg_gs (q : request) : bytes -> bytes :=
+  C20_Model.get_subst V.Gen_C20.gen_c20_vocab (cfg_renv CFG_EMPTY q).
+(* total form of cfg_expand (Replace never fails, C20) *)
+Definition cfg_val (q : request) (v : bytes) : bytes :=
+  match cfg_expand q v with Ok o => o | Panic => [] end.
+
+Lemma cfg_expand_total q v : exists o, cfg_expand q v = Ok o.
+Proof. unfold cfg_expand, C20_Model.expand_env. apply C20_Proofs.expand_total. Qed.
+
+Lemma cfg_expand_val q v : cfg_expand q v = Ok (cfg_val q v).
+Proof. unfold cfg_val. destruct (cfg_expand_total q v) as [o ->]. reflexivity. Qed.
+
+Lemma cfg_expand_render q v :
+  exists t, C20_Model.template v = Ok t /\ cfg_expand q v = Ok (C20_Model.render (cfg_gs q) t).
+Proof. unfold cfg_expand, C20_Model.expand_env, cfg_gs. apply C20_Proofs.expand_render. Qed.
+
+Lemma cfg_expand_literal q v : C19_Model.has_brace v = false -> cfg_expand q v = Ok v.
+Proof. intros H. unfold cfg_expand, C20_Model.expand_env, C20_Model.expand. rewrite H. reflexivity. Qed.
+
+Lemma cfg_entries_map q l :
+  cfg_entries q l = Ok (map (fun kv => (fst kv, cfg_val q (snd kv))) l).
+Proof.
+  induction l as [|kv l IH]; [reflexivity|].
+  cbn [cfg_entries map]. rewrite cfg_expand_val. cbn [rbind]. rewrite IH. reflexivity.
+Qed.
+
+Lemma find_map_key {A B} (g : A -> B) (p : B -> bool) l :
+  find p (map g l) = option_map g (find (fun x => p (g x)) l).
+Proof. induction l as [|x l IH]; [reflexivity|]. cbn [map find]. destruct (p (g x)); [reflexivity|exact IH]. Qed.
+
+Lemma env_lookup_map_vals (F : bytes -> bytes) k l :
+  env_lookup k (map (fun kv => (fst kv, F (snd kv))) l) = option_map F (env_lookup k l).
+Proof.
+  unfold env_lookup. rewrite <- map_rev, find_map_key. cbn [fst].
+  destruct (find (fun x => beq (fst x) k) (rev l)); reflexivity.
+Qed.
+
 Lemma env_list_shape cs sv r q f el :
   env_list cs sv r q f = Ok el ->
-  exists pre, el = pre ++ r_env r ++ hdr_pairs q ++ meth_of q.
+  exists pre, el = pre ++ map (fun kv => (fst kv, cfg_val q (snd kv))) (r_env r) ++ hdr_pairs q ++ meth_of q.
 Proof.
   unfold env_list. destruct (split_at cs r f) as [dp|]; [|discriminate].
-  intros H. exists (env_base sv r q (fst dp) (snd dp)).
-  change (Ok (env_base sv r q (fst dp) (snd dp) ++ r_env r ++ hdr_pairs q ++ meth_of q) = Ok el) in H. congruence.
+  cbn [rbind]. rewrite cfg_entries_map. cbn [rbind].
+  intros H. exists (env_base sv r q (fst dp) (snd dp)). congruence.
+Qed.
+
+(* building the variable list never fails once canSplit has accepted the path *)
+Lemma env_list_total cs sv r q f :
+  can_split cs r f = true -> exists el, env_list cs sv r q f = Ok el.
+Proof.
+  intros Hc. destruct (split_at_total cs r f Hc) as (d & pi & Hs).
+  unfold env_list. rewrite Hs. cbn [rbind]. rewrite cfg_entries_map. cbn [rbind]. eauto.
 Qed.
 
 Lemma env_headers_arrive cs sv r q f el n vals :
@@ -1002,15 +1192,15 @@ Proof.
     + exfalso. apply Hni. apply in_map_iff. exists (n, vals). cbn [fst]. auto.
 Qed.
 
-(* a configured env entry arrives (last one of a name wins) unless a header or a per-method
-   variable has the same name *)
-Lemma env_entries_arrive cs sv r q f el k :
+(* a configured env entry arrives EXPANDED (last one of a name wins) unless a header or a
+   per-method variable has the same name *)
+Lemma env_entry_value cs sv r q f el k v :
   env_list cs sv r q f = Ok el ->
   mem k (map (fun kv => env_name (fst kv)) (q_headers q)) = false ->
   mem k METHOD_VARS = false ->
-  forall v, env_lookup k (r_env r) = Some v -> env_lookup k el = Some v.
+  env_lookup k (r_env r) = Some v -> env_lookup k el = Some (cfg_val q v).
 Proof.
-  intros Hel Hh Hm v Hv. apply env_list_shape in Hel as [pre ->].
+  intros Hel Hh Hm Hv. apply env_list_shape in Hel as [pre ->].
   rewrite !env_lookup_app.
   rewrite (env_lookup_none k (meth_of q)).
   2:{ intros kv Hkv. apply meth_of_keys in Hkv. destruct (beq (fst kv) k) eqn:E; [|reflexivity].
@@ -1021,7 +1211,149 @@ Proof.
       exfalso. unfold mem in Hh. rewrite <- not_true_iff_false in Hh. apply Hh.
       apply existsb_exists. exists (env_name (fst h)). split; [apply in_map_iff; exists h; auto|].
       rewrite E. apply beq_refl. }
-  rewrite Hv. reflexivity.
+  rewrite env_lookup_map_vals, Hv. reflexivity.
+Qed.
+
+Lemma env_entries_arrive cs sv r q f el k :
+  env_list cs sv r q f = Ok el ->
+  mem k (map (fun kv => env_name (fst kv)) (q_headers q)) = false ->
+  mem k METHOD_VARS = false ->
+  forall v, env_lookup k (r_env r) = Some v ->
+  exists out, cfg_expand q v = Ok out /\ env_lookup k el = Some out /\
+              (C19_Model.has_brace v = false -> out = v).
+Proof.
+  intros Hel Hh Hm v Hv. exists (cfg_val q v). split; [apply cfg_expand_val|]. split.
+  - eapply env_entry_value; eauto.
+  - intros Hb. pose proof (cfg_expand_val q v) as E. rewrite (cfg_expand_literal q v Hb) in E. congruence.
+Qed.
+
+(* exactly the expansion: the template of the configured value (a function of the value alone)
+   rendered with the request's substitution function, whose empty value is "" *)
+Lemma env_configured_entries_exact cs sv r q f el k v :
+  env_list cs sv r q f = Ok el ->
+  mem k (map (fun kv => env_name (fst kv)) (q_headers q)) = false ->
+  mem k METHOD_VARS = false ->
+  env_lookup k (r_env r) = Some v ->
+  exists t, C20_Model.template v = Ok t /\
+            env_lookup k el = Some (C20_Model.render (cfg_gs q) t) /\
+            C20_Model.e_empty (cfg_renv CFG_EMPTY q) = [].
+Proof.
+  intros Hel Hh Hm Hv. destruct (cfg_expand_render q v) as (t & Ht & He).
+  exists t. split; [exact Ht|]. split; [|reflexivity].
+  rewrite (env_entry_value cs sv r q f el k v Hel Hh Hm Hv).
+  pose proof (cfg_expand_val q v) as E. rewrite He in E. congruence.
+Qed.
+
+(* ---- the scheme variables: HTTPS=on exactly on TLS connections ---- *)
+Lemma env_lookup_nonconfigured cs sv r q f el k :
+  env_list cs sv r q f = Ok el ->
+  mem k (map (fun kv => env_name (fst kv)) (q_headers q)) = false ->
+  mem k METHOD_VARS = false ->
+  env_lookup k (r_env r) = None ->
+  exists d pi, split_at cs r f = Ok (d, pi) /\ env_lookup k el = env_lookup k (env_base sv r q d pi).
+Proof.
+  intros Hel Hh Hm Hv. unfold env_list in Hel.
+  destruct (split_at cs r f) as [[d pi]|] eqn:Hs; [|discriminate].
+  cbn [rbind fst snd] in Hel. rewrite cfg_entries_map in Hel. cbn [rbind] in Hel. injection Hel as <-.
+  exists d, pi. split; [reflexivity|].
+  rewrite !env_lookup_app.
+  rewrite (env_lookup_none k (meth_of q)).
+  2:{ intros kv Hkv. apply meth_of_keys in Hkv. destruct (beq (fst kv) k) eqn:E; [|reflexivity].
+      apply beq_eq in E. rewrite E in Hkv. congruence. }
+  rewrite (env_lookup_none k (hdr_pairs q)).
+  2:{ intros kv Hkv. unfold hdr_pairs in Hkv. apply in_map_iff in Hkv as (h & <- & Hin). cbn [fst].
+      destruct (beq (env_name (fst h)) k) eqn:E; [|reflexivity]. apply beq_eq in E.
+      exfalso. unfold mem in Hh. rewrite <- not_true_iff_false in Hh. apply Hh.
+      apply existsb_exists. exists (env_name (fst h)). split; [apply in_map_iff; exists h; auto|].
+      rewrite E. apply beq_refl. }
+  rewrite env_lookup_map_vals, Hv. reflexivity.
+Qed.
+
+Lemma env_base_https sv r q d pi :
+  env_lookup (bs "HTTPS") (env_base sv r q d pi) = match q_tls q with Some _ => Some (bs "on") | None => None end /\
+  env_lookup (bs "REQUEST_SCHEME") (env_base sv r q d pi)
+    = Some (match q_tls q with Some _ => bs "https" | None => bs "http" end).
+Proof.
+  unfold env_base, env_tls.
+  destruct (last_index (q_remote q) 58); destruct pi; destruct (q_tls q) as [[ver cs]|];
+    try destruct (tbl_get ver SSL_PROTOCOLS); try destruct (tbl_get cs TLS_CIPHER_NAMES);
+    split; vm_compute; reflexivity.
+Qed.
+
+Lemma env_scheme_vars cs sv r q f el :
+  env_list cs sv r q f = Ok el ->
+  (forall k, In k [bs "HTTPS"; bs "REQUEST_SCHEME"] ->
+     mem k (map (fun kv => env_name (fst kv)) (q_headers q)) = false /\ env_lookup k (r_env r) = None) ->
+  env_lookup (bs "HTTPS") el = match q_tls q with Some _ => Some (bs "on") | None => None end /\
+  env_lookup (bs "REQUEST_SCHEME") el = Some (match q_tls q with Some _ => bs "https" | None => bs "http" end).
+Proof.
+  intros Hel H.
+  destruct (H (bs "HTTPS")) as [Hh1 Hc1]; [left; reflexivity|].
+  destruct (H (bs "REQUEST_SCHEME")) as [Hh2 Hc2]; [right; left; reflexivity|].
+  destruct (env_lookup_nonconfigured cs sv r q f el _ Hel Hh1 eq_refl Hc1) as (d & pi & Hs & E1).
+  destruct (env_lookup_nonconfigured cs sv r q f el _ Hel Hh2 eq_refl Hc2) as (d' & pi' & Hs' & E2).
+  rewrite Hs in Hs'. injection Hs' as <- <-.
+  rewrite E1, E2. apply env_base_https.
+Qed.
+
+(* ---- which placeholders come out empty ---- *)
+Definition class_char (c : N) : bool := (c =? 62) || (c =? 60) || (c =? 126) || (c =? 63) || (c =? 36).
+Lemma vocab_no_class_char :
+  forallb (fun k => match k with _ :: c :: _ => negb (class_char c) | _ => false end) V.Gen_C20.gen_c20_vocab = true.
+Proof. vm_compute. reflexivity. Qed.
+
+Lemma class_key_not_vocab key c :
+  idx key 1 = Ok c -> class_char c = true -> C20_Model.mem key V.Gen_C20.gen_c20_vocab = false.
+Proof.
+  intros Hi Hc. destruct (C20_Model.mem key V.Gen_C20.gen_c20_vocab) eqn:E; [|reflexivity]. exfalso.
+  unfold C20_Model.mem in E. apply existsb_exists in E as (k & Hin & Hb). apply beq_eq in Hb. subst k.
+  pose proof vocab_no_class_char as Hv. rewrite forallb_forall in Hv. specialize (Hv key Hin).
+  destruct key as [|a [|b rk]]; try discriminate.
+  unfold idx in Hi. cbn in Hi. injection Hi as ->. rewrite Hc in Hv. discriminate.
+Qed.
+
+Lemma class_key_not_label key c :
+  idx key 1 = Ok c -> class_char c = true -> C19_Model.prefixb C19_Model.lit_label_13 key = false.
+Proof.
+  intros Hi Hc. destruct key as [|a [|b rk]]; [reflexivity|discriminate Hi|].
+  unfold idx in Hi. cbn in Hi. injection Hi as ->.
+  destruct (C19_Model.prefixb C19_Model.lit_label_13 (a :: c :: rk)) eqn:P; [|reflexivity]. exfalso.
+  cbn in P. apply andb_true_iff in P as [_ P]. apply andb_true_iff in P as [P _].
+  apply N.eqb_eq in P. subst c. vm_compute in Hc. discriminate.
+Qed.
+
+Definition absent_for (q : request) (key : bytes) : Prop :=
+  (exists w, idx key 1 = Ok 62 /\ C20_Model.key_mid key = Ok w /\ C20_Model.hdr_lookup w (q_headers q) = None) \/
+  (exists w, idx key 1 = Ok 126 /\ C20_Model.key_mid key = Ok w /\ C20_Model.assoc w (q_cookies q) = None) \/
+  (exists w, idx key 1 = Ok 63 /\ C20_Model.key_mid key = Ok w /\ C20_Model.assoc w (q_qargs q) = None) \/
+  idx key 1 = Ok 60 \/
+  In key (REC_KEYS ++ TLS_KEYS) \/
+  (q_tls q = None /\ In key TLS_CONN_KEYS) \/
+  (exists c, idx key 1 = Ok c /\ class_char c = false /\
+             C20_Model.mem key V.Gen_C20.gen_c20_vocab = false /\
+             C19_Model.prefixb C19_Model.lit_label_13 key = false).
+
+Lemma cfg_absent_empty q key : absent_for q key -> cfg_gs q key = [].
+Proof.
+  unfold cfg_gs, C20_Model.get_subst.
+  intros [(w & Hi & Hm & Hh) | [(w & Hi & Hm & Hh) | [(w & Hi & Hm & Hh) | [Hi | [Hin | [[Ht Hin] | (c & Hi & Hc & Hv & Hl)]]]]]].
+  - unfold C20_Model.get_subst_chk. cbn [cfg_renv C20_Model.e_custom C20_Model.assoc C20_Model.e_reqh].
+    rewrite Hi. cbn [rbind N.eqb Pos.eqb]. rewrite Hm. cbn [rbind]. rewrite Hh.
+    rewrite (class_key_not_vocab key 62 Hi eq_refl), (class_key_not_label key 62 Hi eq_refl). reflexivity.
+  - unfold C20_Model.get_subst_chk. cbn [cfg_renv C20_Model.e_custom C20_Model.assoc C20_Model.e_resph C20_Model.e_cookies].
+    rewrite Hi. cbn [rbind N.eqb Pos.eqb]. rewrite Hm. cbn [rbind]. rewrite Hh.
+    rewrite (class_key_not_vocab key 126 Hi eq_refl), (class_key_not_label key 126 Hi eq_refl). reflexivity.
+  - unfold C20_Model.get_subst_chk. cbn [cfg_renv C20_Model.e_custom C20_Model.assoc C20_Model.e_resph C20_Model.e_query].
+    rewrite Hi. cbn [rbind N.eqb Pos.eqb]. rewrite Hm. cbn [rbind]. rewrite Hh. reflexivity.
+  - unfold C20_Model.get_subst_chk. cbn [cfg_renv C20_Model.e_custom C20_Model.assoc C20_Model.e_resph].
+    rewrite Hi. cbn [rbind N.eqb Pos.eqb].
+    rewrite (class_key_not_vocab key 60 Hi eq_refl), (class_key_not_label key 60 Hi eq_refl). reflexivity.
+  - cbn [REC_KEYS TLS_KEYS map app In] in Hin.
+    repeat (destruct Hin as [<-|Hin]; [vm_compute; reflexivity|]). contradiction.
+  - cbn [TLS_CONN_KEYS map In] in Hin.
+    destruct Hin as [<-|[<-|[]]]; unfold C20_Model.get_subst_chk; cbn; rewrite Ht; reflexivity.
+  - rewrite (C20_Proofs.unknown_placeholder_empty _ _ key c); try assumption; try reflexivity;
+      intros ->; discriminate Hc.
 Qed.
 
 (* ---- the response head ---- *)
